@@ -271,7 +271,19 @@ impl<'a> Acc<'a> {
             self.shrink_steps += ex.outcome.steps;
         }
         let mut info = CaseInfo::default();
-        let findings = (part.oracle)(sc, &ex, &mut info);
+        let mut findings = (part.oracle)(sc, &ex, &mut info);
+        // a panic raised by the crate inside an API call on a legal history is a failure of every
+        // property (the call neither returns what the property promises nor anything else)
+        if let crate::rt::Verdict::Panic(..) = ex.outcome.verdict {
+            if !findings.iter().any(|f| f.kind == "Panic" || f.kind == "HarnessPanic") {
+                let h = crate::oracles::Hist::build(sc, &ex);
+                findings.extend(
+                    crate::oracles::verdict_findings(&h, false)
+                        .into_iter()
+                        .filter(|f| f.kind == "Panic" || f.kind == "HarnessPanic"),
+                );
+            }
+        }
         if let Ok(want) = std::env::var("MQV_DUMP_VERDICT") {
             if verdict_name(&ex) == want {
                 let v = ViolationReport {
